@@ -384,6 +384,7 @@ func (p *Parser) parseFactor() (IEvaluator, *Error) {
 }
 
 func (p *Parser) parsePower() (IEvaluator, *Error) {
+	defer p.chain()()
 	pw := new(power)
 
 	power1, err := p.parseFactor()
@@ -393,6 +394,10 @@ func (p *Parser) parsePower() (IEvaluator, *Error) {
 	pw.power1 = power1
 
 	if p.Match(TokenSymbol, "^") != nil {
+		// (the node stands on top of the base, which has been parsed already)
+		if err := p.onTop(); err != nil {
+			return nil, err
+		}
 		if err := p.deeper(1); err != nil {
 			return nil, err
 		}
@@ -419,6 +424,7 @@ func (p *Parser) parseTerm(negative bool) (IEvaluator, *Error) {
 	// (levels of nesting this function adds while it parses a chain of operands)
 	operands := 0
 	defer func() { p.depth -= operands }()
+	defer p.chain()()
 
 	returnTerm := &term{negativeSign: negative}
 
@@ -429,8 +435,12 @@ func (p *Parser) parseTerm(negative bool) (IEvaluator, *Error) {
 	returnTerm.factor1 = factor1
 
 	for p.PeekOne(TokenSymbol, "*", "/", "%") != nil {
-		// (one more operand: one more level of the tree this loop builds)
+		// (one more operand: one more level of the tree this loop builds, on top of
+		// everything the chain consists of so far)
 		operands++
+		if err := p.onTop(); err != nil {
+			return nil, err
+		}
 		if err := p.deeper(1); err != nil {
 			return nil, err
 		}
@@ -465,6 +475,7 @@ func (p *Parser) parseSimpleExpression() (IEvaluator, *Error) {
 	// (levels of nesting this function adds while it parses a chain of operands)
 	operands := 0
 	defer func() { p.depth -= operands }()
+	defer p.chain()()
 
 	expr := new(simpleExpression)
 
@@ -502,8 +513,12 @@ func (p *Parser) parseSimpleExpression() (IEvaluator, *Error) {
 	expr.term1 = term1
 
 	for p.PeekOne(TokenSymbol, "+", "-") != nil {
-		// (one more operand: one more level of the tree this loop builds)
+		// (one more operand: one more level of the tree this loop builds, on top of
+		// everything the chain consists of so far)
 		operands++
+		if err := p.onTop(); err != nil {
+			return nil, err
+		}
 		if err := p.deeper(1); err != nil {
 			return nil, err
 		}
@@ -535,6 +550,7 @@ func (p *Parser) parseSimpleExpression() (IEvaluator, *Error) {
 }
 
 func (p *Parser) parseRelationalExpression() (IEvaluator, *Error) {
+	defer p.chain()()
 	expr1, err := p.parseSimpleExpression()
 	if err != nil {
 		return nil, err
@@ -545,6 +561,10 @@ func (p *Parser) parseRelationalExpression() (IEvaluator, *Error) {
 	}
 
 	if t := p.MatchOne(TokenSymbol, "==", "<=", ">=", "!=", "<>", ">", "<"); t != nil {
+		// (the node stands on top of the left side, which has been parsed already)
+		if err := p.onTop(); err != nil {
+			return nil, err
+		}
 		if err := p.deeper(1); err != nil {
 			return nil, err
 		}
@@ -556,6 +576,9 @@ func (p *Parser) parseRelationalExpression() (IEvaluator, *Error) {
 		expr.opToken = t
 		expr.expr2 = expr2
 	} else if t := p.MatchOne(TokenKeyword, "in"); t != nil {
+		if err := p.onTop(); err != nil {
+			return nil, err
+		}
 		if err := p.deeper(1); err != nil {
 			return nil, err
 		}
@@ -586,6 +609,7 @@ func (p *Parser) ParseExpression() (IEvaluator, *Error) {
 	}
 	operands := 0
 	defer func() { p.depth -= 1 + operands }()
+	defer p.chain()()
 
 	expr, err := p.parseAndExpression()
 	if err != nil {
@@ -593,8 +617,12 @@ func (p *Parser) ParseExpression() (IEvaluator, *Error) {
 	}
 
 	for p.PeekOne(TokenSymbol, "||") != nil || p.PeekOne(TokenKeyword, "or") != nil {
-		// (one more operand: one more level of the tree this loop builds)
+		// (one more operand: one more level of the tree this loop builds, on top of
+		// everything the chain consists of so far)
 		operands++
+		if err := p.onTop(); err != nil {
+			return nil, err
+		}
 		if err := p.deeper(1); err != nil {
 			return nil, err
 		}
@@ -618,6 +646,7 @@ func (p *Parser) parseAndExpression() (IEvaluator, *Error) {
 	// (levels of nesting this function adds while it parses a chain of operands)
 	operands := 0
 	defer func() { p.depth -= operands }()
+	defer p.chain()()
 
 	expr, err := p.parseRelationalExpression()
 	if err != nil {
@@ -625,8 +654,12 @@ func (p *Parser) parseAndExpression() (IEvaluator, *Error) {
 	}
 
 	for p.PeekOne(TokenSymbol, "&&") != nil || p.PeekOne(TokenKeyword, "and") != nil {
-		// (one more operand: one more level of the tree this loop builds)
+		// (one more operand: one more level of the tree this loop builds, on top of
+		// everything the chain consists of so far)
 		operands++
+		if err := p.onTop(); err != nil {
+			return nil, err
+		}
 		if err := p.deeper(1); err != nil {
 			return nil, err
 		}
